@@ -44,7 +44,7 @@ def alt_witness(rng, t):
 def generate(rng, tier, boost):
     big = tier == 'thorough' or boost
     cases = []
-    for k in range(1500 if big else 250):
+    for k in range(1500 if big else 150):
         t = W.rand_tx(rng, nin=rng.choice([1, 1, 2, 3]), nout=rng.choice([0, 1, 2]))
         cases.append((201, [t, alt_witness(rng, t)]))
     for k in range(200 if big else 40):
